@@ -25,6 +25,7 @@ import (
 	ipfscluster "github.com/ipfs/ipfs-cluster"
 	"github.com/ipfs/ipfs-cluster/api"
 	"github.com/ipfs/ipfs-cluster/consensus/raft"
+	libp2p "github.com/libp2p/go-libp2p"
 	peer "github.com/libp2p/go-libp2p-core/peer"
 	peerstore "github.com/libp2p/go-libp2p-core/peerstore"
 	ma "github.com/multiformats/go-multiaddr"
@@ -52,20 +53,22 @@ var norm = cmpx.Norm{DropUserAllocs: true, ExpirySeconds: true, ModeFromDepth: t
 type node struct {
 	idx       int
 	maxAppend int
+	retries   int // raft commit_retries
+	gater     *fakes.Gater
 	folder    string
 	f         *fakes.ClusterFixture
 	cons      *raft.Consensus
 	up        bool
 }
 
-func raftCfg(folder string, init []peer.ID, maxAppend int) *raft.Config {
+func raftCfg(folder string, init []peer.ID, maxAppend, retries int) *raft.Config {
 	cfg := &raft.Config{}
 	cfg.Default()
 	cfg.DataFolder = filepath.Join(folder, "raft")
 	cfg.InitPeerset = init
 	cfg.WaitForLeaderTimeout = 30 * time.Second
 	cfg.NetworkTimeout = 5 * time.Second
-	cfg.CommitRetries = 2
+	cfg.CommitRetries = retries
 	cfg.CommitRetryDelay = 50 * time.Millisecond
 	cfg.BackupsRotate = 2
 	cfg.RaftConfig.HeartbeatTimeout = 200 * time.Millisecond
@@ -89,14 +92,18 @@ func raftCfg(folder string, init []peer.ID, maxAppend int) *raft.Config {
 // start creates the Cluster (real raft consensus, harness tracker/monitor/IPFS)
 // without waiting for readiness.
 func (n *node) start(init []peer.ID, staging bool, repin bool, all []*node) error {
-	h := fakes.NewHost(gen.PeerKeys[n.idx], true)
+	n.gater = fakes.NewGater()
+	h, herr := libp2p.New(context.Background(), libp2p.Identity(gen.PeerKeys[n.idx]), libp2p.ListenAddrStrings("/ip4/127.0.0.1/tcp/0"), libp2p.ConnectionGater(n.gater))
+	if herr != nil {
+		return herr
+	}
 	for _, o := range all {
 		if o != n && o.f != nil && o.up {
 			h.Peerstore().AddAddrs(o.f.Host.ID(), o.f.Host.Addrs(), peerstore.PermanentAddrTTL)
 			o.f.Host.Peerstore().AddAddrs(h.ID(), h.Addrs(), peerstore.PermanentAddrTTL)
 		}
 	}
-	cons, err := raft.NewConsensus(h, raftCfg(n.folder, init, n.maxAppend), dssync.MutexWrap(ds.NewMapDatastore()), staging)
+	cons, err := raft.NewConsensus(h, raftCfg(n.folder, init, n.maxAppend, n.retries), dssync.MutexWrap(ds.NewMapDatastore()), staging)
 	if err != nil {
 		h.Close()
 		return err
@@ -160,6 +167,9 @@ func pidx(p peer.ID) int {
 // that it can be reported if the clean-up wedges afterwards.
 var lastFailure string
 
+// curScript points at the script of the running case (for the watchdog).
+var curScript *[]string
+
 func (n *node) stop() {
 	if n.f != nil && n.up {
 		done := make(chan struct{})
@@ -170,7 +180,11 @@ func (n *node) stop() {
 			// a peer whose Shutdown never returns cannot be cleaned up; that
 			// is a failure of the property itself (members stop when asked or
 			// removed), reported directly because the test cannot go on
-			fmt.Printf("%s\nShutdown of peer %d did not return within 90 s\n--- FAIL: TestMembership (shutdown hangs)\n", lastFailure, n.idx)
+			sc := ""
+			if curScript != nil {
+				sc = strings.Join(*curScript, " ; ")
+			}
+			fmt.Printf("%s\nShutdown of peer %d did not return within 90 s\nscript: %s\n--- FAIL: TestMembership (shutdown hangs)\n", lastFailure, n.idx, sc)
 			ev.Flush()
 			os.Exit(1)
 		}
@@ -178,7 +192,7 @@ func (n *node) stop() {
 	}
 }
 
-const rule = "state machine on up to 4 full Cluster instances (real Raft consensus with data folders, harness tracker/monitor/IPFS) on loopback: initial cluster of 1-3 members (one case in four pre-loaded with 1200 pins and MaxAppendEntries 1-4; each peer with 0-2 older backups of Raft data on disk), then 3-6 steps of pin/unpin at any member, PeerAdd of a fresh staging peer at any member, Join of a fresh peer through any member, PeerRemove issued at any member against any member (leader, follower, the caller itself), PeerAdd of a present peer, PeerRemove of an absent peer, removal of the last peer; re-pinning on or off; model = member set and pinset; oracle after each step (bounded polling): every running member reports the model's peerset and pinset, no-ops return nil and change nothing, the last peer cannot be removed, a new peer lists exactly the model pinset at the moment it reports ready, a removed peer shuts itself down and its Raft data folder is cleaned, and with re-pinning on no pin is left allocated only to the removed peer; non-trivial = a removal of a peer holding pins or a join/add after pins exist; distinct by script"
+const rule = "state machine on up to 4 full Cluster instances (real Raft consensus with data folders, harness tracker/monitor/IPFS) on loopback: initial cluster of 1-3 members (one case in four pre-loaded with 1200 pins and MaxAppendEntries 1-4; each peer with 0-2 older backups of Raft data on disk), then 3-6 steps of pin/unpin at any member, PeerAdd of a fresh staging peer at any member, Join of a fresh peer through any member, PeerRemove issued at any member against any member (leader, follower, the caller itself), PeerAdd of a present peer, PeerRemove of an absent peer, removal of the last peer, crash of the leader followed at once by its removal at a follower (commit_retries 0-2), an add at a leader that was just partitioned off (fails), healing and later removal of that ex-leader; re-pinning on or off; model = member set and pinset; oracle after each step (bounded polling): every running member reports the model's peerset and pinset, no-ops return nil and change nothing, the last peer cannot be removed, a new peer lists exactly the model pinset at the moment it reports ready, a removed peer shuts itself down and its Raft data folder is cleaned, and with re-pinning on no pin is left allocated only to the removed peer; non-trivial = a removal of a peer holding pins or a join/add after pins exist; distinct by script"
 
 func TestMembership(t *testing.T) {
 	leg := ev.L("membership", rule)
@@ -199,9 +213,10 @@ func TestMembership(t *testing.T) {
 			bulk = 1200
 			maxAppend = rapid.SampledFrom([]int{1, 2, 4}).Draw(t, "maxAppendEntries")
 		}
+		retries := rapid.SampledFrom([]int{0, 1, 2, 2}).Draw(t, "commitRetries")
 		nodes := make([]*node, 4)
 		for i := range nodes {
-			nodes[i] = &node{idx: i, maxAppend: maxAppend, folder: filepath.Join(dir, fmt.Sprintf("p%d", i))}
+			nodes[i] = &node{idx: i, maxAppend: maxAppend, retries: retries, folder: filepath.Join(dir, fmt.Sprintf("p%d", i))}
 			// a peer may have been removed from a cluster before: 0-2 older
 			// backups of its Raft data exist beside the data folder
 			nb := rapid.SampledFrom([]int{0, 1, 2, 2}).Draw(t, "oldBackups")
@@ -233,6 +248,8 @@ func TestMembership(t *testing.T) {
 			}
 		}
 		script := []string{fmt.Sprintf("initial=%d repinning=%v bulk=%d maxAppend=%d", n0, repin, bulk, maxAppend)}
+		curScript = &script
+		lastFailure = ""
 		model := map[string]*api.Pin{}
 		classes := map[string]bool{}
 		if bulk > 0 {
@@ -423,8 +440,8 @@ func TestMembership(t *testing.T) {
 			"peerAddPresent": func(t *rapid.T) {
 				at, x := pick(t, "at"), pick(t, "who")
 				script = append(script, fmt.Sprintf("peerAdd(present %d at %d)", x, at))
-				if _, err := nodes[at].f.C.PeerAdd(ctx, gen.Peers[x]); err != nil {
-					fail("adding a present peer must be a harmless no-op, got: %v", err)
+				if err := retryNoLeader(func() error { _, e := nodes[at].f.C.PeerAdd(ctx, gen.Peers[x]); return e }); err != nil {
+					fail("adding a present peer must be a harmless no-op, got (for 20 s): %v", err)
 				}
 				classes["noop"] = true
 				settle("after adding a present peer")
@@ -432,11 +449,185 @@ func TestMembership(t *testing.T) {
 			"peerRemoveAbsent": func(t *rapid.T) {
 				at := pick(t, "at")
 				script = append(script, fmt.Sprintf("peerRemove(absent at %d)", at))
-				if err := nodes[at].f.C.PeerRemove(ctx, gen.Peers[9]); err != nil {
-					fail("removing an absent peer must be a harmless no-op, got: %v", err)
+				if err := retryNoLeader(func() error { return nodes[at].f.C.PeerRemove(ctx, gen.Peers[9]) }); err != nil {
+					fail("removing an absent peer must be a harmless no-op, got (for 20 s): %v", err)
 				}
 				classes["noop"] = true
 				settle("after removing an absent peer")
+			},
+			"crashLeaderThenRemove": func(t *rapid.T) {
+				// the leader dies (no shutdown) and a follower is at once asked to
+				// remove it: the call either fails or really removes it
+				if len(members) < 3 {
+					t.Skip("needs a quorum without the leader")
+				}
+				L := -1
+				for _, i := range memberList() {
+					if ld, err := nodes[i].cons.Leader(ctx); err == nil && pidx(ld) == i {
+						L = i
+					}
+				}
+				if L < 0 {
+					t.Skip("no leader")
+				}
+				var F int
+				for _, i := range memberList() {
+					if i != L {
+						F = i
+					}
+				}
+				script = append(script, fmt.Sprintf("crash(%d) ; peerRemove(%d at %d)", L, L, F))
+				nodes[L].f.Host.Close()
+				err := nodes[F].f.C.PeerRemove(ctx, gen.Peers[L])
+				deadline := time.Now().Add(45 * time.Second)
+				for err != nil && time.Now().Before(deadline) {
+					// refused while there is no leader: a dead member must be
+					// removable once the survivors elected one
+					time.Sleep(300 * time.Millisecond)
+					setMetrics()
+					err = nodes[F].f.C.PeerRemove(ctx, gen.Peers[L])
+				}
+				if err != nil {
+					leg.Inconclusive(fmt.Sprintf("the crashed leader could not be removed within 45 s: %v", err))
+					t.Skip("not acknowledged")
+				}
+				delete(members, L)
+				nodes[L].stop()
+				classes["crashed-leader-removed"] = true
+				classes["nontrivial"] = true
+				if repin {
+					// allocations may have moved away from the dead peer
+					time.Sleep(100 * time.Millisecond)
+					if ps, err := nodes[F].f.C.Pins(ctx); err == nil {
+						for _, p := range ps {
+							if model[p.Cid.String()] != nil {
+								model[p.Cid.String()] = p
+							}
+						}
+					}
+				}
+				settle("after removing the crashed leader")
+			},
+			"addAtPartitionedLeader": func(t *rapid.T) {
+				// the leader is cut off and, before it notices, asked to add a
+				// peer: that fails; after the partition heals everything must
+				// work as before - in particular the ex-leader can later be
+				// removed and stops itself
+				if len(members) < 3 || len(members) >= 4 {
+					t.Skip("needs three members and a spare peer")
+				}
+				x := fresh()
+				if x < 0 {
+					t.Skip("no fresh peer")
+				}
+				L := -1
+				for _, i := range memberList() {
+					if ld, err := nodes[i].cons.Leader(ctx); err == nil && pidx(ld) == i {
+						L = i
+					}
+				}
+				if L < 0 {
+					t.Skip("no leader")
+				}
+				if err := nodes[x].start(nil, true, repin, nodes); err != nil {
+					fail("VERIF-INFRA start of new peer: %v", err)
+				}
+				script = append(script, fmt.Sprintf("partition(%d) ; peerAdd(%d at %d) ; heal", L, x, L))
+				for _, i := range memberList() {
+					if i != L {
+						nodes[L].gater.Block(nodes[i].f.Host.ID(), true)
+						nodes[i].gater.Block(nodes[L].f.Host.ID(), true)
+						nodes[L].f.Host.Network().ClosePeer(nodes[i].f.Host.ID())
+						nodes[i].f.Host.Network().ClosePeer(nodes[L].f.Host.ID())
+					}
+				}
+				actx, acancel := context.WithTimeout(ctx, 20*time.Second)
+				_, aerr := nodes[L].f.C.PeerAdd(actx, gen.Peers[x])
+				acancel()
+				for _, i := range memberList() {
+					if i != L {
+						nodes[L].gater.Block(nodes[i].f.Host.ID(), false)
+						nodes[i].gater.Block(nodes[L].f.Host.ID(), false)
+					}
+				}
+				if aerr == nil {
+					// it went through before the leader lost its lease
+					members[x] = true
+					if !nodes[x].waitReady(60 * time.Second) {
+						fail("the added peer %d did not report ready within 60 s", x)
+					}
+				} else {
+					// the call failed; whether the configuration change it may
+					// have written before losing leadership survives is Raft's
+					// business: take what the members agree on once healed
+					added := false
+					deadline := time.Now().Add(40 * time.Second)
+					for time.Now().Before(deadline) {
+						views := map[string]bool{}
+						for _, i := range memberList() {
+							ps, err := nodes[i].peers()
+							if err != nil {
+								ps = "err"
+							}
+							views[ps] = true
+						}
+						if len(views) == 1 {
+							for v := range views {
+								added = strings.Contains(","+v+",", fmt.Sprintf(",%d,", x))
+							}
+							if !views["err"] {
+								break
+							}
+						}
+						time.Sleep(200 * time.Millisecond)
+					}
+					if added {
+						members[x] = true
+						if !nodes[x].waitReady(60 * time.Second) {
+							fail("peer %d was added after all but did not report ready within 60 s", x)
+						}
+					} else {
+						nodes[x].stop()
+					}
+					classes["failed-add-at-partitioned-leader"] = true
+				}
+				settle("after a partition of the leader healed")
+				// now remove the ex-leader through another member
+				var F int
+				for _, i := range memberList() {
+					if i != L {
+						F = i
+					}
+				}
+				script = append(script, fmt.Sprintf("peerRemove(%d at %d)", L, F))
+				setMetrics()
+				if err := nodes[F].f.C.PeerRemove(ctx, gen.Peers[L]); err != nil {
+					leg.Inconclusive(fmt.Sprintf("PeerRemove returned an error: %v", err))
+					t.Skip("not acknowledged")
+				}
+				delete(members, L)
+				select {
+				case <-nodes[L].f.C.Done():
+				case <-time.After(60 * time.Second):
+					fail("peer %d, removed after a partition in which an add at it had failed, did not shut itself down within 60 s", L)
+				}
+				nodes[L].up = false
+				nodes[L].f.Host.Close()
+				if _, err := os.Stat(filepath.Join(nodes[L].folder, "raft")); err == nil {
+					fail("removed peer %d still has its Raft data folder", L)
+				}
+				if repin {
+					time.Sleep(100 * time.Millisecond)
+					if ps, err := nodes[F].f.C.Pins(ctx); err == nil {
+						for _, p := range ps {
+							if model[p.Cid.String()] != nil {
+								model[p.Cid.String()] = p
+							}
+						}
+					}
+				}
+				classes["nontrivial"] = true
+				settle("after removing the ex-leader")
 			},
 			"peerRemove": func(t *rapid.T) {
 				at, x := pick(t, "at"), pick(t, "who")
@@ -535,4 +726,18 @@ func bulkCid(i int) cid.Cid {
 		panic(err)
 	}
 	return cid.NewCidV1(cid.Raw, h)
+}
+
+// retryNoLeader repeats a membership no-op while it fails: right after the
+// leader was removed or died there is no leader for a moment and every
+// membership call is refused; only a persistent refusal counts.
+func retryNoLeader(f func() error) error {
+	deadline := time.Now().Add(20 * time.Second)
+	for {
+		err := f()
+		if err == nil || time.Now().After(deadline) {
+			return err
+		}
+		time.Sleep(300 * time.Millisecond)
+	}
 }
